@@ -43,11 +43,13 @@ type c03Case struct {
 	peer   string // the peer address ("" = rotating, as before); "a.b.c.d/16" = IPv4 in 16-byte form
 	src    string // "cc:asn" answered by the scripted GeoIP stand-in ("" = the world's database)
 	resets string // "P0,R2,Q1": PrintAndReset / Reset before the k-th read, PrintAndReset before the k-th classification call
+	// zz_verif_c03_reload_test.go: configuration reloads between the start-up state and the connection
+	reloads string // "kkkk,kkmk": <config><subnets><asn path><cc path> per reload
 }
 
 func (c c03Case) replay(seed int64) string {
-	return fmt.Sprintf("c03|seed=%d|world=%d|phantom=%s|geo=%s|tagged=%s|class=%s|peer=%s|src=%s|resets=%s|script=%s", seed, c.world, c.phantom, c.geo, vlib.B(c.tagged), c.class,
-		c.peer, c.src, c.resets, c34EvString(c.evs))
+	return fmt.Sprintf("c03|seed=%d|world=%d|phantom=%s|geo=%s|tagged=%s|class=%s|peer=%s|src=%s|resets=%s|reloads=%s|script=%s", seed, c.world, c.phantom, c.geo, vlib.B(c.tagged), c.class,
+		c.peer, c.src, c.resets, c.reloads, c34EvString(c.evs))
 }
 
 var c03Remote = &net.TCPAddr{IP: net.IPv4(203, 0, 113, 99), Port: 40404}
@@ -79,8 +81,8 @@ func c03Check(out *vlib.Out, c *c03Case, run *c34Run, cn c34Canon, hung bool) (f
 	if run.panicked != nil {
 		// nothing recovers a handler goroutine in the station: the process dies, this connection and every
 		// other open connection is closed at once - whatever the stream was
-		c03Fail(out, "C03:panic", fmt.Sprintf("panic: the handler panicked (the station process dies and closes every open connection at once): %v (class %s, phantom %s, %d registrations, peer %s, source %q, resets %q)",
-			run.panicked, c.class, c.phantom, run.count, run.conn.remote, c.src, c.resets), c.replay(vlib.Seed()))
+		c03Fail(out, "C03:panic", fmt.Sprintf("panic: the handler panicked (the station process dies and closes every open connection at once): %v (class %s, phantom %s, %d registrations, peer %s, source %q, resets %q, reloads before the connection %q)",
+			run.panicked, c.class, c.phantom, run.count, run.conn.remote, c.src, c.resets, c.reloads), c.replay(vlib.Seed()))
 		return true
 	}
 	if c.geo == "cc" || c.geo == "asn" || c.geo == "nonip" {
@@ -252,6 +254,12 @@ func c03RunOnce(out *vlib.Out, w *c34World, c *c03Case, limit time.Duration, rec
 	}
 	x := c03XOf(w)
 	cc, asn, geoOK := x.installGeo(c, geo, remote)
+	if c.reloads != "" {
+		var bad bool
+		if cc, asn, geoOK, bad = x.reloadHistory(out, c, remote, cc, asn, geoOK, record); bad {
+			return true, 0
+		}
+	}
 	conn, hooked, atStart, err := x.conn(c, remote)
 	if err != nil {
 		c03Fail(out, "C03:harness", err.Error(), c.replay(vlib.Seed()))
@@ -524,6 +532,7 @@ type c03Gen struct {
 func (g *c03Gen) probe(class, phantom string, data []byte) {
 	c := c03Case{phantom: phantom, geo: "ok", evs: c03End(g.r, c03Segment(g.r, data)), class: class}
 	g.dress(&c)
+	g.dressReloads(&c)
 	g.emit(c)
 }
 
@@ -712,7 +721,9 @@ func c03ErrorPath(out *vlib.Out, n int, wg *sync.WaitGroup) {
 		wg.Add(1)
 		go func(i int) {
 			defer wg.Done()
+			c03EnvMu.RLock()
 			w, err := newC34World(fmt.Sprintf("C03/err%d", i), "")
+			c03EnvMu.RUnlock()
 			if err != nil {
 				out.Note("error-path world: " + err.Error())
 				return
@@ -761,7 +772,9 @@ func c03RealSockets(out *vlib.Out, n int, wg *sync.WaitGroup) {
 	wg.Add(1)
 	go func() {
 		defer wg.Done()
+		c03EnvMu.RLock()
 		w, err := newC34World("C03/real", "")
+		c03EnvMu.RUnlock()
 		if err != nil {
 			out.Note("real sockets: " + err.Error())
 			return
@@ -791,6 +804,17 @@ func c03RealSockets(out *vlib.Out, n int, wg *sync.WaitGroup) {
 				case <-time.After(150 * time.Millisecond):
 					x.reset(k%2 == 0)
 					out.Count("real-socket:stats-epoch")
+					// and a configuration reload every 300 ms: successful ones and ones that fail in every way
+					if k%2 == 1 {
+						toks := []string{"kkkk", "kkmk", "kkkx", "mkkk", "kmkk", "kkjd", "tkuu", "kkkk", "bkkk", "kkdk"}
+						tok := toks[(k/2)%len(toks)]
+						rl, _ := c03ParseReloads(tok)
+						if p := x.reload(rl[0]); p != nil {
+							c03Fail(out, "C03:panic", fmt.Sprintf("real sockets: the configuration reload %s panicked while probes were being handled (the station process dies and closes every open connection at once): %v", tok, p),
+								fmt.Sprintf("c03real|seed=%d|reload=%s", vlib.Seed(), tok))
+						}
+						out.Count("real-socket:reload")
+					}
 				}
 			}
 		}()
@@ -1088,6 +1112,8 @@ func TestVerifC03(t *testing.T) {
 			case 3, 4, 5:
 				// scripted GeoIP stand-in / the real MaxMind reader / the real EmptyDatabase
 				g.statsEpochs(thorough)
+				// reload histories before the probe: start-up database = stand-in / real reader / real EmptyDatabase
+				g.reloadHistories(thorough, wi != 4, wi == 4)
 			}
 			g.random(vlib.Budget(2500, 12000))
 		}(wi)
@@ -1137,10 +1163,10 @@ func c03Replay(t *testing.T, out *vlib.Out, path string) {
 		if err != nil {
 			t.Fatal(err)
 		}
-		c := c03Case{phantom: m["phantom"], geo: m["geo"], tagged: m["tagged"] == "1", class: m["class"], evs: evs, peer: m["peer"], src: m["src"], resets: m["resets"]}
+		c := c03Case{phantom: m["phantom"], geo: m["geo"], tagged: m["tagged"] == "1", class: m["class"], evs: evs, peer: m["peer"], src: m["src"], resets: m["resets"], reloads: m["reloads"]}
 		fmt.Sscan(m["world"], &c.world)
 		c03Run(out, w, &c, 60*time.Second)
-		fmt.Fprintf(os.Stderr, "REPLAY c03 class=%s phantom=%s geo=%s peer=%s src=%s resets=%s events=%d\n", c.class, c.phantom, c.geo, c.peer, c.src, c.resets, len(evs))
+		fmt.Fprintf(os.Stderr, "REPLAY c03 class=%s phantom=%s geo=%s peer=%s src=%s resets=%s reloads=%s events=%d\n", c.class, c.phantom, c.geo, c.peer, c.src, c.resets, c.reloads, len(evs))
 	}
 	if len(reals) > 0 {
 		var bg sync.WaitGroup
